@@ -161,9 +161,9 @@ fn c15_strftime_step_multibyte() {
     kani::cover!(pre == 1 && buf[0] == b'%');
 }
 
-// @ob tier=quick timeout=900 mem=10
-// @desc quick instance of the iterator step obligation: fresh iterator over any ASCII string of up to 3 bytes (strict and lenient): no panic, and a returned item strictly decreases (unconsumed bytes, queued items) -- covers "%", "%Q", "%-Q", "%#Q", "%.3", "%:z" (finding F3 on the original tree)
-// @bounds format strings up to 3 bytes, all ASCII byte values (unwind 6); longer strings: c15_strftime_step_ascii (thorough)
+// @ob tier=thorough timeout=3600 mem=24
+// @desc instance of the iterator step obligation: fresh iterator over any ASCII string of up to 3 bytes (strict and lenient): no panic, and a returned item strictly decreases (unconsumed bytes, queued items) -- covers "%", "%Q", "%-Q", "%#Q", "%.3", "%:z" (finding F3 on the original tree)
+// @bounds format strings up to 3 bytes, all ASCII byte values (unwind 6); longer strings: c15_strftime_step_ascii
 // @funcs StrftimeItems::{new, new_lenient, next, parse_next_item, error}, hook StrftimeItems::verif_measure
 #[kani::proof]
 #[kani::unwind(6)]
@@ -212,15 +212,20 @@ fn c15_round_range_ends() {
     kani::cover!(dt.offset().local_minus_utc() > 0);
 }
 
-// @ob tier=quick timeout=1800 mem=12
+// @ob tier=thorough timeout=5400 mem=16
 // @desc the RFC 3339 renderers at both ends of the range: to_rfc3339 and to_rfc3339_opts (every precision, with and without Z) return normally -- never panic -- also when the wall-clock reading lies in the headroom day beyond MIN/MAX (finding F7 on the original tree: to_rfc3339_opts called naive_local())
-// @bounds UTC readings within the first and last representable day x all offsets x 5 precisions x use_z; text goes to a String (alloc model of Kani)
+// @bounds the first and the last representable UTC second x all whole-hour offsets in (-24h, 24h) x 5 precisions x use_z; text goes to a String (Kani's alloc model)
 // @funcs DateTime::{to_rfc3339, to_rfc3339_opts}, write_rfc3339, OffsetFormat::format
+// @outside other UTC readings of the first/last day and offsets that are not whole hours (same code path; kept small because String formatting is expensive to encode)
 #[kani::proof]
 #[kani::unwind(12)]
 fn c15_rfc3339_range_ends() {
     use chrono::SecondsFormat;
-    let dt = range_end_datetime();
+    let at_max: bool = kani::any();
+    let u = if at_max { NaiveDate::MAX.and_hms_opt(23, 59, 59).unwrap() } else { NaiveDate::MIN.and_hms_opt(0, 0, 0).unwrap() };
+    let h: i32 = kani::any();
+    kani::assume(h > -24 && h < 24);
+    let dt = FixedOffset::east_opt(h * 3600).unwrap().from_utc_datetime(&u);
     let which: u8 = kani::any();
     kani::assume(which < 5);
     let sf = match which { 0 => SecondsFormat::Secs, 1 => SecondsFormat::Millis, 2 => SecondsFormat::Micros, 3 => SecondsFormat::Nanos, _ => SecondsFormat::AutoSi };
@@ -229,5 +234,30 @@ fn c15_rfc3339_range_ends() {
     core::mem::forget(s);
     let s2 = dt.to_rfc3339();
     core::mem::forget(s2);
-    kani::cover!(dt.offset().local_minus_utc() < 0);
+    kani::cover!(at_max && h > 0);
+    kani::cover!(!at_max && h < 0);
+}
+
+// @ob tier=quick timeout=900 mem=12
+// @desc quick instance of the iterator step obligation: a fresh strict or lenient iterator over "%" followed by any one ASCII byte (every single-letter specifier, known or unknown, and the bare "%"): next() never panics and a returned item strictly decreases (unconsumed bytes, queued items) -- the strict-mode "%Q" loop of finding F3 is exactly this case
+// @bounds the strings "%" and "%x" for all 128 ASCII values of x (unwind 5); longer strings: c15_strftime_step_short / _ascii (thorough)
+// @funcs StrftimeItems::{new, new_lenient, next, parse_next_item, error}, hook StrftimeItems::verif_measure
+#[kani::proof]
+#[kani::unwind(5)]
+fn c15_strftime_step_percent() {
+    let x: u8 = kani::any();
+    kani::assume(x < 128);
+    let buf = [b'%', x];
+    let len: usize = kani::any();
+    kani::assume(len == 1 || len == 2);
+    let s = unsafe { core::str::from_utf8_unchecked(&buf[..len]) };
+    let lenient: bool = kani::any();
+    let mut it = if lenient { StrftimeItems::new_lenient(s) } else { StrftimeItems::new(s) };
+    let before = it.verif_measure();
+    let item = it.next();
+    let after = it.verif_measure();
+    assert!(item.is_some());
+    assert!(after.0 < before.0 || (after.0 == before.0 && after.1 < before.1));
+    kani::cover!(matches!(item, Some(Item::Error)));
+    kani::cover!(after.1 > 0);
 }
